@@ -71,7 +71,7 @@ def main():
                               'Vexp.eval as the 2-state meaning of an expression', 'ExtrOcamlBasic extraction + ocaml/rtldrv.ml',
                               'harness/rtl_proc.cpp, g++ 12']
     ck.assumptions = ['2-state semantics as Verilator implements it: ===/!== are ==/!=, 1\'bx is an arbitrary value (the theorem quantifies over it)',
-                      'asynchronous reset is modelled as a level sampled at the rising clock edge (i_rst in {0,1} is an ordinary input of the next-state functions)',
+                      'the next-state functions take i_rst as an ordinary input sampled at the rising clock edge; which edges trigger a register is compared separately (design.clocking, part of C16_equiv) and exercised by reset pulses between clock edges in the lock-step runs',
                       'timing, X-propagation and synthesis are not modelled; synth/synth.in.ys reads processor.sv, not the .v (observation, not judged)']
     rng = ck.rng
     # ---- (a) regenerate the designs from the working tree
@@ -137,7 +137,7 @@ def main():
             n = per_byte * (6 if byte in focus else 1)
             for i in range(n):
                 pc, a, b, o, dd = gen_state(rng, byte)
-                rst = 1 if i % 16 == 15 else 0
+                rst = 1 if i % 16 == 15 else 2 if i % 16 == 7 else 0          # 2 = reset pulse with the clock low (no clock edge)
                 cases.append('1 %d %d %d %d %d %d %d %d' % (byte, rst, pc, a, b, o, dd, rng.choice([0, 1, rng.randrange(0, 1 << 32)])))
         # instruction sequences: plant once, then let the designs run on a random byte / read-data stream
         nseq, seqlen = (60, 300) if not ck.thorough() else (2000, 400)
@@ -147,7 +147,8 @@ def main():
             for j in range(seqlen):
                 r = rng.random()
                 byte = rng.choice(legal) if r < 0.7 else (rng.choice([0xD0, 0xD1, 0xD2, 0xD3]) if r < 0.85 else rng.randrange(256))
-                rst = 1 if rng.random() < 0.01 else 0
+                r2 = rng.random()
+                rst = 1 if r2 < 0.01 else 2 if r2 < 0.02 else 0
                 cases.append('%d %d %d %d %d %d %d %d %d' % (1 if j == 0 else 0, byte, rst, pc, a, b, o, rng.choice([0, 1, M32, rng.randrange(0, 1 << 32)]), rng.randrange(0, 2)))
     d = vlib.scratch()
     open(os.path.join(d, 'cases.txt'), 'w').write('\n'.join(cases) + '\n')
@@ -215,7 +216,7 @@ def main():
                                      % (v, c, Mod[v][i], R[v][i]))
     # ---- evidence
     distinct = set()
-    dist = {'planted': 0, 'sequence_cycles': 0, 'reset_cycles': 0}
+    dist = {'planted': 0, 'sequence_cycles': 0, 'reset_cycles': 0, 'reset_pulses_between_edges': 0}
     byop = {}
     if 'sv' in R:
         for i, c in enumerate(cases):
@@ -223,6 +224,8 @@ def main():
             dist['planted' if f[0] == '1' else 'sequence_cycles'] += 1
             if f[2] == '1':
                 dist['reset_cycles'] += 1
+            if f[2] == '2':
+                dist['reset_pulses_between_edges'] += 1
             outs, nxt = R['sv'][i].split(' | ')
             nx = dict(x.split('=') for x in nxt.split())
             ou = dict(x.split('=') for x in outs.split())
